@@ -7,14 +7,19 @@
 //!
 //! Script lines
 //!   new <tag> <id> <kind>            Message::default().id(id).kind(kind) into slot <tag>
-//!   set <tag> <ctor> <ty> <val>      ctor c  = set_content
+//!   set <tag> <ctor> <ty> <val> [lay=<k>]   (lay: in-memory layout of the containers inside the value:
+//!                                    ring-buffer position of deques, insertion order / capacity of maps, sets,
+//!                                    heaps, spare capacity of strings and vectors; 0 = canonical; the abstract
+//!                                    value, and hence every answer, must not depend on it)
+//!                                    ctor c  = set_content
 //!                                         nc = set_content_non_clonable
 //!                                         wl:<n> = set_body(Body::new_with_len(v, n))
 //!                                         nd = set_content_non_debugable
 //!   clone <src> <dst>                Message::clone (may panic)      | tryclone <src> <dst>
 //!   cast <tag> <ty>                  try_cast::<ty>; Ok: value+header taken, rendered, dropped
 //!   content <tag> <ty>               try_content::<ty>     | contentmut <tag> <ty> (read only)
-//!   cancast <tag> <ty> | len <tag> | drop <tag>
+//!   cancast <tag> <ty> | drop <tag>
+//!   len <tag> [br=<bit/s>]           Message::length and ChannelMetrics::calculate_busy at that bitrate (default 8)
 //! Values are terms over  U  P<size>:<n>  S<hex>  F<size>:<n>  N  J(v)  K(v)  E(v)  B(v)  [v,..]
 //! A[v,..]  T(v,..)  R{v,..}  V<k>{v,..}  (unit, primitive, string, fixed-size opaque, None, Some, Ok,
 //! Err, Box, sequence, fixed-size array, tuple, derived struct, derived enum variant k) — the same universe as the Lean
@@ -351,6 +356,15 @@ pub struct Sa {
     tr: Tr,
 }
 
+/// derived struct whose fields are containers with value-independent, layout-dependent storage
+#[derive(Debug, Clone, MessageBody)]
+pub struct Sd {
+    d: VecDeque<String>,
+    m: HashMap<u8, String>,
+    q: Option<VecDeque<u32>>,
+    tr: Tr,
+}
+
 /// derived enum whose variants carry arrays
 #[derive(Debug, Clone, MessageBody)]
 pub enum Ea {
@@ -451,7 +465,26 @@ impl Fam for () {
 impl Fam for String {
     fn from_v(v: &V) -> Option<Self> {
         match v {
-            V::S(b) => String::from_utf8(b.clone()).ok(),
+            V::S(b) => {
+                let s = String::from_utf8(b.clone()).ok()?;
+                match lay() % 3 {
+                    0 => Some(s),
+                    1 => {
+                        let mut t = String::with_capacity(s.len() + 37);
+                        t.push_str(&s);
+                        Some(t)
+                    }
+                    _ => {
+                        // grown char by char, then some spare room
+                        let mut t = String::new();
+                        for c in s.chars() {
+                            t.push(c);
+                        }
+                        t.reserve(5);
+                        Some(t)
+                    }
+                }
+            }
             _ => None,
         }
     }
@@ -496,6 +529,31 @@ impl<T: Fam, const N: usize> Fam for [T; N] {
         std::array::from_fn(|_| T::arb(r))
     }
 }
+thread_local! {
+    /// layout seed of the value under construction (0 = canonical layout) and the number of
+    /// deques that were really built wrapped (second slice non-empty) for it
+    static LAY: RefCell<(u64, u64)> = RefCell::new((0, 0));
+}
+fn lay_set(seed: u64) {
+    LAY.with(|l| *l.borrow_mut() = (seed, 0));
+}
+/// next layout choice; always 0 for the canonical layout
+fn lay() -> u64 {
+    LAY.with(|l| {
+        let mut l = l.borrow_mut();
+        if l.0 == 0 {
+            0
+        } else {
+            let mut r = Rng(l.0);
+            let x = r.next();
+            l.0 = r.0 | 1;
+            x >> 8
+        }
+    })
+}
+fn lay_wrapped() -> u64 {
+    LAY.with(|l| l.borrow().1)
+}
 fn arb_len(r: &mut Rng) -> u64 {
     match r.below(4) {
         0 => 0,
@@ -506,7 +564,17 @@ fn arb_len(r: &mut Rng) -> u64 {
 impl<T: Fam> Fam for Vec<T> {
     fn from_v(v: &V) -> Option<Self> {
         match v {
-            V::L(xs) => xs.iter().map(T::from_v).collect(),
+            V::L(xs) => {
+                let k = lay() % 3;
+                let mut out: Vec<T> = if k == 1 { Vec::with_capacity(xs.len() + 9) } else { Vec::new() };
+                for x in xs {
+                    out.push(T::from_v(x)?);
+                }
+                if k == 2 {
+                    out.shrink_to_fit();
+                }
+                Some(out)
+            }
             _ => None,
         }
     }
@@ -517,9 +585,60 @@ impl<T: Fam> Fam for Vec<T> {
         (0..arb_len(r)).map(|_| T::arb(r)).collect()
     }
 }
+/// equal deques in different ring-buffer layouts: contiguous, split by push_front, or wrapped
+/// around the end of the buffer by a sliding window (dummies pushed and popped first)
 impl<T: Fam> Fam for VecDeque<T> {
     fn from_v(v: &V) -> Option<Self> {
-        Vec::<T>::from_v(v).map(VecDeque::from)
+        let V::L(xs) = v else { return None };
+        let n = xs.len();
+        let k = lay();
+        let d: VecDeque<T> = match k % 4 {
+            0 => {
+                let items: Option<Vec<T>> = xs.iter().map(T::from_v).collect();
+                VecDeque::from(items?)
+            }
+            1 if n >= 2 => {
+                // the tail is pushed to the back, the head to the front: the head part lives at
+                // the end of the buffer, the tail part at its start
+                let j = 1 + (k / 4) as usize % (n - 1);
+                let mut d = VecDeque::new();
+                for x in &xs[j..] {
+                    d.push_back(T::from_v(x)?);
+                }
+                for x in xs[..j].iter().rev() {
+                    d.push_front(T::from_v(x)?);
+                }
+                d
+            }
+            2 if n >= 2 => {
+                // sliding window on a full buffer
+                let mut d: VecDeque<T> = VecDeque::with_capacity(n);
+                let cap = d.capacity();
+                let j = 1 + (k / 4) as usize % (n - 1);
+                let dummies = cap - n + j;
+                for i in 0..dummies {
+                    d.push_back(T::from_v(&xs[i % n])?);
+                }
+                for _ in 0..dummies {
+                    d.pop_front();
+                }
+                for x in xs {
+                    d.push_back(T::from_v(x)?);
+                }
+                d
+            }
+            _ => {
+                let mut d = VecDeque::with_capacity(n + 11);
+                for x in xs.iter().rev() {
+                    d.push_front(T::from_v(x)?);
+                }
+                d
+            }
+        };
+        if !d.as_slices().1.is_empty() {
+            LAY.with(|l| l.borrow_mut().1 += 1);
+        }
+        Some(d)
     }
     fn to_v(&self) -> V {
         V::L(self.iter().map(Fam::to_v).collect())
@@ -541,7 +660,11 @@ impl<K: Fam + Ord, X: Fam> Fam for BTreeMap<K, X> {
         match v {
             V::L(xs) => {
                 let mut m = BTreeMap::new();
-                for x in xs {
+                let k = lay() as usize;
+                let n = xs.len();
+                // same entries, different insertion orders (rotated / reversed)
+                let order: Vec<usize> = (0..n).map(|i| if k % 2 == 1 { n - 1 - (i + k / 2) % n } else { (i + k / 2) % n }).collect();
+                for x in order.iter().map(|i| &xs[*i]) {
                     match x {
                         V::T(kv) if kv.len() == 2 => {
                             if m.insert(K::from_v(&kv[0])?, X::from_v(&kv[1])?).is_some() {
@@ -565,7 +688,16 @@ impl<K: Fam + Ord, X: Fam> Fam for BTreeMap<K, X> {
 }
 impl<T: Fam> Fam for LinkedList<T> {
     fn from_v(v: &V) -> Option<Self> {
-        Vec::<T>::from_v(v).map(|x| x.into_iter().collect())
+        let xs = Vec::<T>::from_v(v)?;
+        let mut l = LinkedList::new();
+        if lay() % 2 == 1 {
+            for x in xs.into_iter().rev() {
+                l.push_front(x);
+            }
+        } else {
+            l.extend(xs);
+        }
+        Some(l)
     }
     fn to_v(&self) -> V {
         V::L(self.iter().map(Fam::to_v).collect())
@@ -588,7 +720,17 @@ impl<T: Fam> Fam for &'static [T] {
 /// hash maps / sets / heaps are rendered sorted (their iteration order is not observable in a sum)
 impl<K: Fam + Ord + std::hash::Hash + Eq, X: Fam> Fam for HashMap<K, X> {
     fn from_v(v: &V) -> Option<Self> {
-        BTreeMap::<K, X>::from_v(v).map(|m| m.into_iter().collect())
+        let m = BTreeMap::<K, X>::from_v(v)?;
+        let k = lay();
+        let mut h: HashMap<K, X> = if k % 2 == 1 { HashMap::with_capacity(64 + (k % 100) as usize) } else { HashMap::new() };
+        if k % 4 >= 2 {
+            for (a, b) in m.into_iter().rev() {
+                h.insert(a, b);
+            }
+        } else {
+            h.extend(m);
+        }
+        Some(h)
     }
     fn to_v(&self) -> V {
         let mut kv: Vec<(&K, &X)> = self.iter().collect();
@@ -601,9 +743,15 @@ impl<K: Fam + Ord + std::hash::Hash + Eq, X: Fam> Fam for HashMap<K, X> {
 }
 impl<T: Fam + Ord> Fam for BTreeSet<T> {
     fn from_v(v: &V) -> Option<Self> {
-        let xs = Vec::<T>::from_v(v)?;
+        let mut xs = Vec::<T>::from_v(v)?;
         let n = xs.len();
-        let set: BTreeSet<T> = xs.into_iter().collect();
+        if lay() % 2 == 1 {
+            xs.reverse();
+        }
+        let mut set: BTreeSet<T> = BTreeSet::new();
+        for x in xs {
+            set.insert(x);
+        }
         if set.len() == n {
             Some(set)
         } else {
@@ -619,7 +767,17 @@ impl<T: Fam + Ord> Fam for BTreeSet<T> {
 }
 impl<T: Fam + Ord + std::hash::Hash> Fam for HashSet<T> {
     fn from_v(v: &V) -> Option<Self> {
-        BTreeSet::<T>::from_v(v).map(|x| x.into_iter().collect())
+        let b = BTreeSet::<T>::from_v(v)?;
+        let k = lay();
+        let mut h: HashSet<T> = if k % 2 == 1 { HashSet::with_capacity(32 + (k % 50) as usize) } else { HashSet::new() };
+        if k % 4 >= 2 {
+            for x in b.into_iter().rev() {
+                h.insert(x);
+            }
+        } else {
+            h.extend(b);
+        }
+        Some(h)
     }
     fn to_v(&self) -> V {
         let mut xs: Vec<&T> = self.iter().collect();
@@ -632,7 +790,20 @@ impl<T: Fam + Ord + std::hash::Hash> Fam for HashSet<T> {
 }
 impl<T: Fam + Ord> Fam for BinaryHeap<T> {
     fn from_v(v: &V) -> Option<Self> {
-        Vec::<T>::from_v(v).map(|x| x.into_iter().collect())
+        let mut xs = Vec::<T>::from_v(v)?;
+        match lay() % 3 {
+            0 => Some(xs.into_iter().collect()),
+            k => {
+                if k == 2 {
+                    xs.reverse();
+                }
+                let mut h = BinaryHeap::with_capacity(xs.len() + 3);
+                for x in xs {
+                    h.push(x);
+                }
+                Some(h)
+            }
+        }
     }
     fn to_v(&self) -> V {
         let mut xs: Vec<&T> = self.iter().collect();
@@ -960,6 +1131,23 @@ impl Fam for Sa {
         Sa { a: Fam::arb(r), b: Fam::arb(r), tr: Tr::new() }
     }
 }
+impl Fam for Sd {
+    fn from_v(v: &V) -> Option<Self> {
+        match v {
+            V::R(xs) if xs.len() == 4 => {
+                let (d, m, q) = (Fam::from_v(&xs[0])?, Fam::from_v(&xs[1])?, Fam::from_v(&xs[2])?);
+                Some(Sd { d, m, q, tr: Tr::from_v(&xs[3])? })
+            }
+            _ => None,
+        }
+    }
+    fn to_v(&self) -> V {
+        V::R(vec![self.d.to_v(), self.m.to_v(), self.q.to_v(), self.tr.to_v()])
+    }
+    fn arb(r: &mut Rng) -> Self {
+        Sd { d: Fam::arb(r), m: Fam::arb(r), q: Fam::arb(r), tr: Tr::new() }
+    }
+}
 impl Fam for Ea {
     fn from_v(v: &V) -> Option<Self> {
         match v {
@@ -1109,6 +1297,8 @@ macro_rules! with_clonable_ty {
             "nest" => { type $T = W<Nest>; $body }
             "ip" => { type $T = W<Ipv4Addr>; $body }
             "dur" => { type $T = W<Duration>; $body }
+            "deqs" => { type $T = W<VecDeque<String>>; $body }
+            "sdeq" => { type $T = Sd; $body }
             "astr3" => { type $T = W<[String; 3]>; $body }
             "aopt4" => { type $T = W<[Option<u32>; 4]>; $body }
             "avec2" => { type $T = W<[Vec<u8>; 2]>; $body }
@@ -1146,15 +1336,17 @@ macro_rules! with_ty {
     };
 }
 
-const CLONABLE: [&str; 55] = [
+const CLONABLE: [&str; 57] = [
+    "deqs", "sdeq",
     "u32", "a4", "f32", "i32", "char", "u64", "a8", "f64", "pt", "boxu64", "u8", "bool", "unit", "zst", "str", "sstr",
     "vecu8", "vecstr", "deq", "map", "optu32", "optstr", "res", "tup", "ts", "en", "gstr", "gu8", "nest", "ip", "dur",
     "astr3", "aopt4", "avec2", "sarr", "earr", "ints", "tup1", "tup3", "tup10", "ll", "slice", "hmap", "hset", "bset",
     "heap", "ip6", "ipaddr", "sa4", "sa6", "sa", "simtime", "oo", "res2", "boxstr",
 ];
-const GROUPS: [&[&str]; 8] = [
+const GROUPS: [&[&str]; 9] = [
     &["astr3", "tup3", "sarr", "avec2"],
     &["aopt4", "optu32", "earr", "oo", "res2"],
+    &["deq", "deqs", "sdeq", "vecu8", "vecstr"],
     &["ll", "slice", "hmap", "hset", "bset", "heap", "vecstr", "tup1", "boxstr"],
     &["u32", "a4", "f32", "i32", "char", "ncu32"],
     &["u64", "a8", "f64", "pt", "boxu64"],
@@ -1234,13 +1426,22 @@ pub fn gen(seed: u64, count: usize, thorough: bool) -> String {
                     } else {
                         match r.below(10) {
                             0 => "nc".to_string(),
-                            1 => format!("wl:{}", r.below(3000)),
+                            1 => {
+                                if r.chance(1, 2) {
+                                    format!("wl:{}", r.below(3000))
+                                } else {
+                                    // declared lengths over the whole range in which (64 + n) * 8 fits a usize
+                                    let base: u64 = *r.pick(&[1 << 16, (1 << 29) - 64, 1 << 29, 1 << 32, (1 << 32) - 64, 1 << 40, (1 << 53) - 64, 1 << 53, 1 << 60]);
+                                    format!("wl:{}", base + r.below(3) - 1)
+                                }
+                            }
                             2 => "nd".to_string(),
                             _ => "c".to_string(),
                         }
                     };
                     let mut vr = r.fork();
-                    writeln!(out, "set m{t} {ctor} {ty} {}", arb_val(ty, &mut vr).unwrap()).unwrap();
+                    let layout = if r.chance(1, 3) { 0 } else { 1 + r.below(1_000_000) };
+                    writeln!(out, "set m{t} {ctor} {ty} {} lay={layout}", arb_val(ty, &mut vr).unwrap()).unwrap();
                     if sh[t].is_some() {
                         sh[t] = Some(Some((ty, ctor != "nc")));
                     }
@@ -1271,7 +1472,10 @@ pub fn gen(seed: u64, count: usize, thorough: bool) -> String {
                     let ty = aim(&mut r);
                     writeln!(out, "cancast m{t} {ty}").unwrap();
                 }
-                16..=18 => writeln!(out, "len m{t}").unwrap(),
+                16..=18 => {
+                    let br: u64 = *r.pick(&[8, 8, 1, 3, 7, 1000, 9600, 1_000_000, 1_000_000_000, 8_000_000_000, 100_000_000_000]);
+                    writeln!(out, "len m{t} br={br}").unwrap()
+                }
                 _ => {
                     writeln!(out, "drop m{t}").unwrap();
                     sh[t] = None;
@@ -1336,7 +1540,6 @@ where
 
 pub fn exec(input: &str) -> String {
     let mut out = String::new();
-    let metrics = ChannelMetrics::new(8, Duration::ZERO, Duration::ZERO, ChannelDropBehaviour::Drop);
     for (header, body) in cases(input) {
         writeln!(out, "{header}").unwrap();
         reg_reset();
@@ -1354,8 +1557,10 @@ pub fn exec(input: &str) -> String {
                     }
                     "ok".into()
                 }
-                ["set", tag, ctor, ty, val] => {
+                ["set", tag, ctor, ty, val, ..] => {
                     let Some(v) = V::parse(val) else { continue };
+                    let layout: u64 = tok.get(5).and_then(|t| t.strip_prefix("lay=")).and_then(|t| t.parse().ok()).unwrap_or(0);
+                    lay_set(layout);
                     match find(&slots, tag) {
                         None => "noslot".into(),
                         Some(k) => {
@@ -1366,7 +1571,7 @@ pub fn exec(input: &str) -> String {
                                 with_clonable_ty!(*ty, T => set_generic::<T>(m, ctor, &v), _ => None)
                             };
                             match r {
-                                Some(r) => r,
+                                Some(r) => format!("{r} wr={}", lay_wrapped()),
                                 None => continue,
                             }
                         }
@@ -1437,11 +1642,16 @@ pub fn exec(input: &str) -> String {
                         }
                     }
                 },
-                ["len", tag] => match find(&slots, tag) {
+                ["len", tag, ..] => match find(&slots, tag) {
                     None => "noslot".into(),
                     Some(k) => {
                         let m = &slots[k].1;
-                        format!("len={} busy={}", m.length(), metrics.calculate_busy(m).as_nanos())
+                        let br: usize = tok.get(2).and_then(|t| t.strip_prefix("br=")).and_then(|t| t.parse().ok()).unwrap_or(8);
+                        let metrics = ChannelMetrics::new(br, Duration::ZERO, Duration::ZERO, ChannelDropBehaviour::Drop);
+                        match guarded(|| metrics.calculate_busy(m).as_nanos()) {
+                            Ok(ns) => format!("len={} busy={ns}", m.length()),
+                            Err(_) => format!("len={} busy=panic", m.length()),
+                        }
                     }
                 },
                 ["drop", tag] => match find(&slots, tag) {
